@@ -46,3 +46,49 @@ def register(reg):
 
     # ContentRange: set / unset / attribute assignment notify with the final state
     CR = reg.models["ContentRange"] if "ContentRange" in reg.models else None
+    CRm = reg.models["ContentRange"]
+    reg.contract(
+        "werkzeug/datastructures/range.py:ContentRange.set", prop=P, self_model=CRm,
+        params={"start": "Optional[int]", "stop": "Optional[int]", "length": "Optional[int]", "units": "Optional[str]"},
+        ensures=["self._units == units and self._start == start and self._stop == stop and self._length == length",
+                 "valid_range(start, stop, length)", "ud_notified(self)"],
+        raises={"AssertionError": "not valid_range(start, stop, length)"},
+        raises_ensures={"AssertionError": ["ncalls() == 0", "self._units == old(self._units) and self._start == old(self._start)"]},
+    )
+    reg.contract(
+        "werkzeug/datastructures/range.py:ContentRange.unset", prop=P, self_model=CRm,
+        inline_callees=["werkzeug/datastructures/range.py:ContentRange.set"],
+        ensures=["self._units is None and self._start is None and self._stop is None and self._length is None",
+                 "ud_notified(self)"],
+    )
+
+    # ---- WWWAuthenticate: attribute assignment reaches the scheme / token, everything else is a parameter ----
+    WA = reg.model("WWWAuthenticate", cls="werkzeug/datastructures/auth.py:WWWAuthenticate",
+                   fields={"_type": "str", "_token": "Optional[str]", "_parameters": "Dict[str, str]",
+                           "_on_update": "Optional[opaque:callback]"})
+    reg.spec("wa_notified(self)",
+             "(self._on_update is None and ncalls() == 0) or (self._on_update is not None and ncalls() >= 1 and notified_final(self))")
+    reg.contract(
+        "werkzeug/datastructures/auth.py:WWWAuthenticate.__setattr__#type", prop=P, self_model=WA,
+        params={"name": ("const", "type"), "value": "str"},
+        ensures=["self._type == value", "self._token == old(self._token)", "wa_notified(self)"],
+    )
+    reg.contract(
+        "werkzeug/datastructures/auth.py:WWWAuthenticate.__setattr__#token", prop=P, self_model=WA,
+        params={"name": ("const", "token"), "value": "Optional[str]"},
+        ensures=["self._token == value", "self._type == old(self._type)", "wa_notified(self)"],
+    )
+    reg.contract(
+        "werkzeug/datastructures/auth.py:WWWAuthenticate.__setattr__#param", prop=P, self_model=WA,
+        params={"name": "str", "value": "str"},
+        assumes=["name != 'type' and name != 'token' and name != 'parameters' and name != '_type' and name != '_token' "
+                 "and name != '_parameters' and name != '_on_update'"],
+        ensures=["name in self._parameters and self._parameters[name] == value",
+                 "self._type == old(self._type) and self._token == old(self._token)", "wa_notified(self)"],
+    )
+    reg.contract(
+        "werkzeug/datastructures/auth.py:WWWAuthenticate.__delitem__", prop=P, self_model=WA, params={"key": "str"},
+        ensures=["not (key in self._parameters)",
+                 "implies(old(key in self._parameters), wa_notified(self))",
+                 "implies(not old(key in self._parameters), ncalls() == 0)"],
+    )
